@@ -286,28 +286,101 @@ theorem remove_first (d : Deque) (E : Externals) (now : Int) (v : PyVal) (pre po
     rw [this]; simp [hr]
   rw [this]
 
+/-- is the result an exception? -/
+def _root_.DC.Out.isExc : Out → Bool
+  | .exc _ => true
+  | _ => false
+
 /-- `extend` is one `append` per value, left to right; `extendleft` likewise with `appendleft`
 (so the values end up in reverse order at the front) -/
 theorem extend_nil (d : Deque) (E : Externals) (now : Int) (left : Bool) :
     d.extend E now [] left = (d, .none) := by
   rfl
 
-theorem extend_cons (d : Deque) (E : Externals) (now : Int) (v : PyVal) (vs : List PyVal) (left : Bool) :
+/- STATEMENT BEFORE THE FIX OF `Deque.extend` (`for value in iterable: self._append(value)` stops at
+the first `append` that raises) — now false when an `append` raises:
+
+theorem extend_cons : d.extend E now (v :: vs) left = (d.append E now v left).1.extend E now vs left
+theorem extend_append : d.extend E now (vs ++ ws) left = (d.extend E now vs left).1.extend E now ws left
+
+restated for the success case (`extend_cons_ok`, `extend_append_ok`), with the failing-case
+counterparts `extend_stops_at_error` and `extend_append_error`. -/
+
+/-- the old `extend_cons` is false: when the first `append` raises, `extend` returns the exception,
+while continuing with the remaining values (here: none) would return `None` -/
+theorem extend_cons_needs_ok :
+    let d : Deque := { cache := { cfg := { policy := .none } } }
+    (d.extend Cache.exE 0 [.str [0xD800]] false).2.isExc = true ∧
+    ((d.append Cache.exE 0 (.str [0xD800]) false).1.extend Cache.exE 0 [] false).2.isExc = false := by
+  decide +kernel
+
+theorem extend_cons_ok (d : Deque) (E : Externals) (now : Int) (v : PyVal) (vs : List PyVal) (left : Bool)
+    (hok : (d.append E now v left).2.isExc = false) :
     d.extend E now (v :: vs) left = (d.append E now v left).1.extend E now vs left := by
-  rfl
+  rw [extend]
+  cases h : d.append E now v left with
+  | mk d1 o =>
+    rw [h] at hok
+    cases o <;> first | rfl | cases hok
 
-theorem extend_append (d : Deque) (E : Externals) (now : Int) (vs ws : List PyVal) (left : Bool) :
+/-- an `append` that raises ends `extend`: the values before it stay appended, the exception
+propagates, the remaining values are not looked at -/
+theorem extend_stops_at_error (d : Deque) (E : Externals) (now : Int) (v : PyVal) (vs : List PyVal)
+    (left : Bool) (e : String) (herr : (d.append E now v left).2 = .exc e) :
+    d.extend E now (v :: vs) left = ((d.append E now v left).1, .exc e) := by
+  rw [extend]
+  cases h : d.append E now v left with
+  | mk d1 o =>
+    rw [h] at herr
+    simp only at herr
+    subst herr
+    rfl
+
+/-- what `extend` does with the first value, in both cases -/
+theorem extend_cons_cases (d : Deque) (E : Externals) (now : Int) (v : PyVal) (vs : List PyVal) (left : Bool) :
+    ((d.append E now v left).2.isExc = false ∧
+      d.extend E now (v :: vs) left = (d.append E now v left).1.extend E now vs left) ∨
+    (∃ e, (d.append E now v left).2 = .exc e ∧
+      d.extend E now (v :: vs) left = ((d.append E now v left).1, .exc e)) := by
+  cases ho : (d.append E now v left).2 with
+  | exc e => exact .inr ⟨e, rfl, extend_stops_at_error d E now v vs left e ho⟩
+  | _ => exact .inl ⟨rfl, extend_cons_ok d E now v vs left (by rw [ho]; rfl)⟩
+
+theorem extend_append_ok (d : Deque) (E : Externals) (now : Int) (vs ws : List PyVal) (left : Bool)
+    (hok : (d.extend E now vs left).2.isExc = false) :
     d.extend E now (vs ++ ws) left = (d.extend E now vs left).1.extend E now ws left := by
-  simp only [extend, List.foldl_append]
+  induction vs generalizing d with
+  | nil => rfl
+  | cons v vs ih =>
+    rcases extend_cons_cases d E now v vs left with ⟨h1, h2⟩ | ⟨e, h1, h2⟩
+    · rw [List.cons_append, extend_cons_ok d E now v _ left h1, h2]
+      rw [h2] at hok
+      exact ih _ hok
+    · rw [h2] at hok; cases hok
 
-/-- `extend` keeps maxlen -/
+theorem extend_append_error (d : Deque) (E : Externals) (now : Int) (vs ws : List PyVal) (left : Bool)
+    (herr : (d.extend E now vs left).2.isExc = true) :
+    d.extend E now (vs ++ ws) left = d.extend E now vs left := by
+  induction vs generalizing d with
+  | nil => cases herr
+  | cons v vs ih =>
+    rcases extend_cons_cases d E now v vs left with ⟨h1, h2⟩ | ⟨e, h1, h2⟩
+    · rw [List.cons_append, extend_cons_ok d E now v _ left h1, h2]
+      rw [h2] at herr
+      exact ih _ herr
+    · rw [List.cons_append, extend_stops_at_error d E now v _ left e h1, h2]
+
+/-- `extend` keeps maxlen (whether or not it is cut short by an exception) -/
 theorem extend_maxlen (d : Deque) (E : Externals) (now : Int) (vs : List PyVal) (left : Bool) :
     (d.extend E now vs left).1.maxlen = d.maxlen := by
   induction vs generalizing d with
   | nil => rfl
   | cons v vs ih =>
-    rw [extend_cons, ih]
-    exact append_maxlen d E now v left
+    rcases extend_cons_cases d E now v vs left with ⟨-, h2⟩ | ⟨e, -, h2⟩
+    · rw [h2, ih]
+      exact append_maxlen d E now v left
+    · rw [h2]
+      exact append_maxlen d E now v left
 
 end Deque
 
@@ -317,5 +390,33 @@ example : cmpSeq .lt 2 2 [.int 1, .str [97]] [.float 0x3FF0000000000000, .str [9
 example : cmpSeq .lt 1 1 [.int 1] [.str [98]] = none := by decide +kernel           -- TypeError
 example : cmpSeq .eq 1 1 [.int 1] [.float 0x3FF0000000000000] = some true := by decide +kernel   -- 1 == 1.0
 example : pyEq (.float 0x7FF8000000000000) (.float 0x7FF8000000000000) = false := by decide +kernel  -- NaN
+
+/-- `deque.extend([1, '\ud800', 3])` on an empty deque: the first value is appended, the second
+cannot be stored (text with a lone surrogate) — UnicodeEncodeError propagates, the third value is
+never appended, no transaction is left open -/
+theorem Deque.extend_propagates_error :
+    let d : Deque := { cache := { cfg := { policy := .none } } }
+    (match (d.extend Cache.exE 0 [.int 1, .str [0xD800], .int 3] false).2 with
+      | .exc "UnicodeEncodeError" => true | _ => false) = true ∧
+    (d.extend Cache.exE 0 [.int 1, .str [0xD800], .int 3] false).1.cache.rows.length = 1 ∧
+    (d.extend Cache.exE 0 [.int 1, .str [0xD800], .int 3] false).1.cache.rows =
+      (d.extend Cache.exE 0 [.int 1] false).1.cache.rows ∧
+    (d.extend Cache.exE 0 [.int 1, .str [0xD800], .int 3] false).1.cache.depth = 0 ∧
+    (match (d.extend Cache.exE 0 [.int 1, .int 2, .int 3] false).2 with | .none => true | _ => false) = true ∧
+    (d.extend Cache.exE 0 [.int 1, .int 2, .int 3] false).1.cache.rows.length = 3 := by
+  decide +kernel
+
+/-- `deque[0] = '\ud800'` on a deque holding one item: `Cache.set` cannot store the value —
+UnicodeEncodeError propagates and the item is unchanged; a storable value is assigned and the
+result is `None`; an index out of range raises IndexError -/
+theorem Deque.setitem_propagates_error :
+    let d : Deque := (({ cache := { cfg := { policy := .none } } } : Deque).append Cache.exE 0 (.int 1) false).1
+    (match (d.setitem Cache.exE 1 0 (.str [0xD800])).2 with
+      | .exc "UnicodeEncodeError" => true | _ => false) = true ∧
+    (d.setitem Cache.exE 1 0 (.str [0xD800])).1.cache.rows = d.cache.rows ∧
+    (match (d.setitem Cache.exE 1 0 (.int 2)).2 with | .none => true | _ => false) = true ∧
+    (d.setitem Cache.exE 1 0 (.int 2)).1.cache.rows.map (·.val) = [.int 2] ∧
+    (match (d.setitem Cache.exE 1 5 (.int 2)).2 with | .exc "IndexError" => true | _ => false) = true := by
+  decide +kernel
 
 end DC
